@@ -385,7 +385,7 @@ func xorLoops(o *Obligation, g *ssa.Function, pos func(token.Pos) string) {
 		if !ok {
 			return
 		}
-		x, ok := st.Val.(*ssa.BinOp)
+		x, ok := origin(st.Val).(*ssa.BinOp)
 		if !ok || x.Op != token.XOR {
 			return
 		}
@@ -394,7 +394,7 @@ func xorLoops(o *Obligation, g *ssa.Function, pos func(token.Pos) string) {
 			if !ok {
 				return nil
 			}
-			i2, ok := u.X.(*ssa.IndexAddr)
+			i2, ok := origin(u.X).(*ssa.IndexAddr)
 			if !ok {
 				return nil
 			}
@@ -404,7 +404,7 @@ func xorLoops(o *Obligation, g *ssa.Function, pos func(token.Pos) string) {
 			o.Fail(token.NoPos, "%s: the xor loop of %s does not use the same index for destination and both operands", pos(in.Pos()), g.Name())
 			return
 		}
-		ph, ok := ia.Index.(*ssa.Phi)
+		ph, ok := origin(ia.Index).(*ssa.Phi)
 		if !ok || len(ph.Edges) != 2 {
 			o.Fail(token.NoPos, "%s: loop index of %s not recognised", pos(in.Pos()), g.Name())
 			return
